@@ -2,4 +2,5 @@
 set -e
 cd "$(dirname "$0")/engine"
 GOFLAGS=-mod=vendor GOPROXY=off GOTOOLCHAIN=local go build -o gosym .
+GOFLAGS=-mod=vendor GOPROXY=off GOTOOLCHAIN=local go test -count=1 . >/dev/null && echo "engine self-tests ok"
 echo "gosym built"
